@@ -161,7 +161,7 @@ class MessageSigner(object):
         pairs = self._generator.possible_public_pairs_for_signature(
             msg_hash, (x, s), y_parity=y_parity
         )
-        if len(pairs) == 0:
+        if len(pairs) == 0 or pairs[0] == self._generator.infinity():
             raise EncodingError("no public key can be recovered")
         return pairs[0], is_compressed
 
